@@ -66,6 +66,12 @@ SPEC = {
     "rstrip": lambda a: a.rstrip(),
     "lstrip": lambda a: a.lstrip(),
     "substr": lambda a, lo, hi=None: a[lo:hi],
+    "only_chars": lambda a, chars: all(ch in chars for ch in a),
+    "isdigit": lambda a: a.isdigit(),
+    "isalpha": lambda a: a.isalpha(),
+    "isidentifier": lambda a: a.isidentifier(),
+    "isspace": lambda a: a.isspace(),
+    "n_count": len,
 }
 
 
@@ -226,6 +232,122 @@ def _show(env):
             return v
         if isinstance(v, Something):
             return "<some object>"
+        return repr(v)[:80]
+    return {k: one(v) for k, v in env.items()}
+
+
+OPAQUE_CANDIDATES = (None, 0, 5, -3, 2.5, True, False, "x", "", "```(None)```", "```5```")
+
+
+def _model_bool(model, name, default=False):
+    c = [(int(k.rpartition("!")[2]), v) for k, v in (model or {}).items() if k.rpartition("!")[0] == name and k.rpartition("!")[2].isdigit()]
+    return (sorted(c)[0][1] == "True") if c else default
+
+
+def _build(name, kind, model, opaque_choice):
+    """Concrete Python value for a declared kind from the model; `opaque_choice(name)` supplies uninterpreted values"""
+    if kind in ("str", "int", "bool"):
+        return model_value(model, name, kind)
+    if isinstance(kind, (list, tuple)) and not (len(kind) == 2 and kind[0] == "map"):
+        return tuple(_build("%s[%d]" % (name, i), k, model, opaque_choice) for i, k in enumerate(kind))
+    if isinstance(kind, dict):
+        d = {}
+        for key, k in kind.items():
+            optional = key.endswith("?")
+            key_ = key[:-1] if optional else key
+            if optional and not _model_bool(model, "%s.%s.present" % (name, key_), False):
+                continue
+            d[key_] = _build("%s.%s" % (name, key_), k, model, opaque_choice)
+        return d
+    return opaque_choice(name)
+
+
+def replay_function_records(contract, model, budget=400):
+    """
+    Like replay_function, for parameters that are tuples / records (dicts with optional keys): strings, numbers and the
+    presence of keys come from the counter-model, uninterpreted values are SEARCHED over a small candidate set (the model
+    only fixes what the solver needed).  -> dict as replay_function, or None
+    """
+    import itertools
+
+    try:
+        fnode = contract.fnode()
+        if fnode is None:
+            return None
+        mod = importlib.import_module(contract.src.split(":")[0])
+        # which leaves are uninterpreted?
+        leaves = []
+
+        def probe(name):
+            leaves.append(name)
+            return None
+
+        for n, k in contract.params.items():
+            _build(n, k, model, probe)
+        leaves = sorted(set(leaves))
+        fcopy = copy.deepcopy(fnode)
+        fcopy.decorator_list = []
+        code = compile(ast.fix_missing_locations(ast.Module(body=[fcopy], type_ignores=[])), extract.module_path(contract.src.split(":")[0]), "exec")
+        a = fnode.args
+        pnames = [x.arg for x in a.posonlyargs + a.args + a.kwonlyargs]
+        spec = dict(SPEC, present=lambda d, k: isinstance(d, dict) and k in d, field=lambda d, k: d.get(k) if isinstance(d, dict) else None, same=lambda x, y: x == y and type(x) is type(y))
+        tried = 0
+        for combo in itertools.product(OPAQUE_CANDIDATES, repeat=len(leaves)):
+            tried += 1
+            if tried > budget:
+                break
+            choice = dict(zip(leaves, combo))
+            env = {n: _build(n, k, model, lambda nm: choice[nm]) for n, k in contract.params.items()}
+            old_env = copy.deepcopy(env)
+            try:
+                if not all(_spec_eval2(r, env, env, spec) for r in contract.requires):
+                    continue
+                g = dict(vars(mod))
+                for n in contract.closure:
+                    g[n] = Something()
+                exec(code, g)
+                result = g[fnode.name](**{n: env[n] for n in pnames if n in env})
+            except Exception:
+                continue
+            post = dict(env, result=result)
+            try:
+                failed = [e for e in contract.ensures if not _spec_eval2(e, post, old_env, spec)]
+            except Exception:
+                continue
+            if failed:
+                return {"requires_hold": True, "env": _show2(old_env), "result": _show2({"r": result})["r"], "failed_ensures": failed, "searched_uninterpreted_values": choice and {k: repr(v) for k, v in choice.items()}}
+        return None
+    except Exception as ex:
+        return {"replay_error": "%s: %s" % (type(ex).__name__, ex)}
+
+
+def _spec_eval2(text, env, old_env, spec):
+    tree = ast.parse(text, mode="eval")
+
+    class T(ast.NodeTransformer):
+        def __init__(self):
+            self.vals = {}
+
+        def visit_Call(self, node):
+            if isinstance(node.func, ast.Name) and node.func.id == "old" and len(node.args) == 1:
+                nm = "__old_%d" % len(self.vals)
+                self.vals[nm] = eval(compile(ast.Expression(node.args[0]), "<old>", "eval"), dict(old_env, **spec))
+                return ast.copy_location(ast.Name(nm, ast.Load()), node)
+            return self.generic_visit(node)
+
+    tr = T()
+    tree = ast.fix_missing_locations(tr.visit(tree))
+    return eval(compile(tree, "<spec>", "eval"), dict(env, **spec, **tr.vals))
+
+
+def _show2(env):
+    def one(v):
+        if isinstance(v, dict):
+            return {str(k): one(x) for k, x in v.items()}
+        if isinstance(v, (tuple, list)):
+            return [one(x) for x in v]
+        if isinstance(v, (str, int, float, bool, type(None))):
+            return v
         return repr(v)[:80]
     return {k: one(v) for k, v in env.items()}
 
